@@ -29,7 +29,7 @@ FATAL = {
     "C04": {},
     "C14": {"conv": ("IntText",)},
     "C15": {"conv": ("BoolText", "CharText", "StrText", "DispOK", "FloatOK"), "always": ("ResultOK.display", "TextOK.display")},
-    "C16": {"codec": ("utf8", "utf8_lossy", "utf16", "utf16_lossy", "memory")},
+    "C16": {"codec": ("utf8", "utf8_lossy", "utf16", "utf16_lossy", "memory"), "always": ("TextOK.decode", "ResultOK.decode", "Utf8OK")},
     "C19": {"codec": ("de_*",), "conv": ("SerOK", "ArbOK")},
     "C18": {"always": ("CallbackPanicOK",), "when": {"cbpanic": ("RcOK", "BlocksOK", "EndClean", "TextOK", "Isolation", "Abort")},
             "shim": MEMSHIM, "shim_when": "cbpanic", "must_exercise": ("CallbackPanicOK",)},
@@ -84,8 +84,8 @@ PROFILES = {
     "C13": {"quick": [SEED2, SHRINK2, FAIL2, dq("all")], "thorough": [SEED3, CORE4, SHRINK2, FAIL2, SIZES2, dt("all")]},
     "C14": {"quick": [CONV], "thorough": [CONV, {"kind": "sweep", "what": "u32"}, {"kind": "sweep", "what": "i32"}]},
     "C15": {"quick": [CONV, SEED1], "thorough": [CONV, SEED2, {"kind": "sweep", "what": "f32"}]},
-    "C16": {"quick": [{"kind": "codec", "cfg": "MC_Codec_u8_q"}, {"kind": "codec", "cfg": "MC_Codec_u16_q"}],
-            "thorough": [{"kind": "codec", "cfg": "MC_Codec_u8_t"}, {"kind": "codec", "cfg": "MC_Codec_u16_t"}]},
+    "C16": {"quick": [{"kind": "codec", "cfg": "MC_Codec_u8_q"}, {"kind": "codec", "cfg": "MC_Codec_u16_q"}, mc("MC_Decode_d2"), dq("mixed")],
+            "thorough": [{"kind": "codec", "cfg": "MC_Codec_u8_t"}, {"kind": "codec", "cfg": "MC_Codec_u16_t"}, mc("MC_Decode_d2"), dt("mixed")]},
     "C17": {"quick": [PAIRS2, dq("mixed")], "thorough": [PAIRS2, SEED2, dt("mixed")]},
     "C18": {"quick": [SEED2, dq("callbacks")], "thorough": [SEED3, FAIL2, dt("callbacks")]},
     "C19": {"quick": [{"kind": "codec", "cfg": "MC_Codec_u8_q"}, CONV], "thorough": [{"kind": "codec", "cfg": "MC_Codec_u8_t"}, CONV]},
